@@ -677,3 +677,18 @@ Proof.
   unfold join_host_port. pose proof (index_present c_colon x ltac:(lia)) as Hi.
   apply Z.leb_le in Hi. rewrite Hi. reflexivity.
 Qed.
+
+(* ---- every Connect of one transport object dials the same, given address ---- *)
+Lemma connects_const a outcomes : connects a outcomes = repeat a (length outcomes).
+Proof. induction outcomes as [|o t IH]; cbn [connects connect_step length repeat]; [reflexivity|]. rewrite IH. reflexivity. Qed.
+
+(* [dials a host port] lifted to every Connect, first or later, whatever happened before *)
+Lemma redial a host port outcomes : dials a host port ->
+  Forall (fun d => split_host_port d = SplitOk host port) (client_dials a outcomes) /\
+  Forall (fun d => split_host_port d = SplitOk host port) (component_dials a outcomes) /\
+  length (client_dials a outcomes) = length outcomes /\
+  length (component_dials a outcomes) = length outcomes.
+Proof.
+  intros (a' & Hc & Hp & Hs). unfold client_dials, component_dials. rewrite Hc, Hp, connects_const.
+  rewrite repeat_length. repeat split; apply Forall_forall; intros d Hd; apply repeat_spec in Hd; subst d; exact Hs.
+Qed.
